@@ -27,6 +27,16 @@ var c13Corpus = [][]string{
 // what each corpus program prints on c13Doc (read off the programs, not computed by the
 // implementation: a layout-dependent defect that also hits the canonical spelling must
 // not cancel out)
+// programs for the ';' clause: a statement ended by ';' may be followed by another one on the same line
+var c13Semis = [][2]string{
+	{"function f(x) { if (x) return; print 'no' }\nBEGIN { f(1); f(0); print 'end' }", "no\nend\n"},
+	{"function f(x) { if (x) return 5; print 'no' }\nBEGIN { print f(1); f(0); print 'end' }", "5\nno\nend\n"},
+	{"function f() { return; }\nBEGIN { x = f(); print x is null; print 'a'; print 'b'; }", "true\na\nb\n"},
+	{"BEGIN { for (i = 0; i < 3; i++) { if (i == 1) continue; if (i == 2) break; print i; } print 'end' }", "0\nend\n"},
+	{"{ if ($.a > 1) next; print 'small' }\nEND { print 'end'; exit; print 'never' }", "small\nend\n"},
+	{"BEGIN { x = 1; ; y = 2; print x + y }", ""},
+}
+
 var c13Gold = []string{"7 a\n", "3\n", "big\nsmall\n", "0\n2\n", "1 0\n2 1\n3 2\n", "3\n", "many\n", "2\n", "true false -1\nfalse\n", "2 -1 1 -3\n", "a-b|true true\n"}
 
 var c13Doc = []any{map[string]any{"a": 2.0}, map[string]any{"a": 0.0}}
@@ -203,6 +213,13 @@ func VHC13Quotes() {
 	}
 	o1, k1 := c13Run("BEGIN { printf('%s', '" + body + "') }")
 	o2, k2 := c13Run("BEGIN { printf('%s', \"" + body + "\") }")
+	if !bad {
+		// the OTHER quote character is an ordinary character of the literal, wherever it stands
+		o3, k3 := c13Run("BEGIN { printf('%s', '\"" + body + "\"') }")
+		o4, k4 := c13Run("BEGIN { printf('%s', \"'" + body + "'x''\") }")
+		vh.Assert(k3 == OK && o3 == "\""+denot+"\"", "C13: double quotes inside a single-quoted literal are characters of it, also first and last")
+		vh.Assert(k4 == OK && o4 == "'"+denot+"'x''", "C13: single quotes inside a double-quoted literal are characters of it, also first and last")
+	}
 	vh.Reach("literal evaluated")
 	if bad {
 		vh.Assert(k1 == ErrRuntime && k2 == ErrRuntime, "C13: an unknown or dangling escape is a runtime error in both quote styles")
@@ -300,4 +317,16 @@ func VHC13Keywords() {
 	out, k := c13Run("BEGIN { " + id + " = 5; print " + id + " }")
 	vh.Reach("identifier evaluated")
 	vh.Assert(k == OK && out == "5\n", "C13: keyword with an extra identifier character is an ordinary identifier")
+}
+
+// VHC13SameLine: `;` ends a statement like a newline does: break / continue / return /
+// next / exit followed by `;` and another statement on the same line.
+func VHC13SameLine() {
+	c := c13Semis[vh.Choose("case", len(c13Semis))]
+	if c[1] == "" {
+		return // `;;`: whether an empty statement is allowed is left open
+	}
+	got, k := c13Run(c[0])
+	vh.Reach("same-line statements evaluated")
+	vh.Assert(k == OK && got == c[1], "C13: a statement ended by ; may be followed by another on the same line: "+lbl(c[0]))
 }
